@@ -107,6 +107,7 @@ fn tokenize_tagged(doc: &str) -> Vec<Vec<i64>> {
                 rows.push(vec![6]);
                 break;
             }
+            Ok(Event::Comment(_)) => rows.push(vec![8]),
             Ok(_) => rows.push(vec![5]),
             Err(_) => rows.push(vec![7]),
         }
